@@ -48,7 +48,8 @@ class Conn:
 
     def __init__(self, smsc, index):
         self.smsc, self.index = smsc, index
-        self.reader, self.writer, self.transport, self.protocol = sess.make_stream(smsc.loop)
+        self.reader, writer, self.transport, self.protocol = sess.make_stream(smsc.loop)
+        self._writer_for_esme = writer    # handed over by open_connection and then forgotten: only the ESME keeps it alive
         self.opened_at = smsc.loop.time()
         self.closed_at = None
         self.seen = 0              # number of written chunks already dispatched
@@ -121,7 +122,8 @@ class FakeSMSC:
             raise ConnectionRefusedError('late refusal')
         conn = Conn(self, len(self.conns))
         self.conns.append(conn)
-        return conn.reader, conn.writer
+        writer, conn._writer_for_esme = conn._writer_for_esme, None
+        return conn.reader, writer
 
 
 def install(loop, smsc):
